@@ -205,6 +205,44 @@ proof! {
     }
 }
 
+// --- feeding of the generators (anchors: summary/asset.rs, summary/instrument.rs) ------------------------------
+// The asset tear sheet's drawdown generators must be those of the asset's EQUITY curve (total balance): after
+// init(b0) and two balance snapshots the internal generator equals a reference DrawdownGenerator fed the totals,
+// and max / mean generators received exactly the drawdowns it emitted.
+proof! {
+    #[kani::unwind(8)]
+    fn c18_q_asset_feed() {
+        use barter::{engine::state::asset::AssetState, statistic::summary::asset::TearSheetAssetGenerator};
+        use barter_execution::balance::{AssetBalance, Balance};
+        use barter_instrument::asset::AssetIndex;
+        use barter_integration::snapshot::Snapshot;
+        let balance = |bits: u32| { let total = dec_pos(bits); let free = dec_u(bits); assume(free <= total); Balance { total, free } };
+        let (t0, t1, t2) = (any_u8_lt(6), any_u8_lt(6), any_u8_lt(6));
+        assume(t0 <= t1 && t1 <= t2);
+        let b0 = balance(2);
+        let mut generator = TearSheetAssetGenerator::init(&Timed::new(b0, time_at(t0)));
+        let mut reference = DrawdownGenerator::init(Timed::new(b0.total, time_at(t0)));
+        let (mut ref_max, mut ref_mean) = (MaxDrawdownGenerator::default(), MeanDrawdownGenerator::default());
+        let b1 = balance(2);
+        let b2 = balance(3);
+        let feed = |g: &mut TearSheetAssetGenerator, r: &mut DrawdownGenerator, rmax: &mut MaxDrawdownGenerator, rmean: &mut MeanDrawdownGenerator, b: Balance, t: u8| {
+            let snapshot = AssetBalance { asset: AssetIndex(0), balance: b, time_exchange: time_at(t) };
+            g.update_from_balance(Snapshot(&snapshot));
+            if let Some(dd) = r.update(Timed::new(b.total, time_at(t))) {
+                rmax.update(&dd);
+                rmean.update(&dd);
+            }
+        };
+        feed(&mut generator, &mut reference, &mut ref_max, &mut ref_mean, b1, t1);
+        feed(&mut generator, &mut reference, &mut ref_max, &mut ref_mean, b2, t2);
+        assert!(generator.drawdown == reference, "C18: the asset's drawdown generator is not the one of its total-balance curve");
+        assert!(generator.drawdown_max == ref_max && generator.drawdown_mean == ref_mean, "C18: max / mean drawdown did not receive exactly the completed drawdowns");
+        assert!(generator.balance_now == Some(b2), "C18: latest balance not recorded");
+        kani::cover!(ref_max.max.is_some(), "a drawdown completed");
+        kani::cover!(b0.free < b0.total && b1.total < b0.total, "seed balance with locked funds, then a dip");
+    }
+}
+
 proof! {
     #[kani::unwind(8)]
     fn c18_twin_must_fail() {
